@@ -1190,10 +1190,27 @@ fn only() -> Option<String> {
 }
 
 fn check(case: &Case, obs: &mut Obs) -> Result<(), Failure> {
-    let function = case.spec.build().map_err(|e| Failure::new("C10|harness|build", e))?;
+    let mut function = case.spec.build().map_err(|e| Failure::new("C10|harness|build", e))?;
     if function.control_flow_graph().entry().is_none() {
         obs.exclude("no-entry");
         return Ok(());
+    }
+    // one input in two went through ControlFlowGraph::merge() first, as lifted functions do: the
+    // folded function (block indices now sparse, some at or above the number of blocks) is the input
+    if case.havoc_seed % 2 == 0 {
+        let before = function.control_flow_graph().blocks().len();
+        if let Ok(Ok(())) = guard(|| function.control_flow_graph_mut().merge()) {
+            let idx: Vec<usize> = function.control_flow_graph().blocks().iter().map(|b| b.index()).collect();
+            if idx.len() < before {
+                obs.class("input-folded-by-merge");
+            }
+            if idx.iter().any(|i| *i >= idx.len()) {
+                obs.class("block-index-at-or-above-block-count");
+            }
+        } else {
+            obs.exclude("merge-failed-on-input");
+            return Ok(());
+        }
     }
     let orig = FnView::of(&function);
     let info = analyse_original(&orig);
@@ -1420,6 +1437,7 @@ fn main() -> std::process::ExitCode {
         "phi inputs for predecessors that are unreachable from the entry, and everything inside unreachable blocks except their presence and their instructions modulo SSA indices, are not constrained".into(),
     ];
     spec.floors = vec![
+        ("block-index-at-or-above-block-count", 0.03),
         ("nontrivial", 0.40),
         ("loop-carried", 0.20),
         ("guard-only-use-after-join", 0.05),
